@@ -298,6 +298,23 @@ def par_regref_deps(p):
     return ret
 
 
+def par_index_form(p):
+    """Form of an Operation parameter in which measured parameters are identified by subsystem index.
+
+    Measured parameters belonging to the RegRefs of different Programs are different symbols.
+    For comparing Programs they are identified like the RegRefs themselves, by their subsystem index.
+
+    Args:
+        p (Any): Operation parameter
+
+    Returns:
+        Any: p with every :class:`MeasuredParameter` replaced by a plain symbol of the same name
+    """
+    if isinstance(p, sympy.Basic):
+        return p.xreplace({k: sympy.Symbol(k.name) for k in p.atoms(MeasuredParameter)})
+    return p
+
+
 def par_str(p):
     """String representation of the Operation parameter.
 
